@@ -166,6 +166,48 @@ pub fn run(ctx: &Ctx) -> i32 {
         });
     }
 
+    // one tileset shared by several tilemap cels (frames and layers) with different effective opacities
+    if ctx.wants_family("shared-tileset") {
+        let ops: [(u8, u8); 4] = [(255, 255), (255, 100), (128, 200), (0, 255)];
+        let mut cases = Vec::new();
+        for fi in 0..3usize {
+            for a in 0..4usize {
+                for b in 0..4usize {
+                    for two_layers in [false, true] {
+                        cases.push((fi, a, b, two_layers));
+                    }
+                }
+            }
+        }
+        ctx.family("shared-tileset", cases.len() as u64, "one tileset used by two tilemap cels (two frames of one layer, or two layers) for every pair of (layer, cel) opacity pairs out of 4, 3 pixel formats; both rendered on the same loaded object", true);
+        cases.par_iter().for_each(|(fi, a, b, two_layers)| {
+            let case = || format!("fmt{} ops={:?}/{:?} two_layers={}", fi, ops[*a], ops[*b], two_layers);
+            if !ctx.wants("shared-tileset", &case) {
+                return;
+            }
+            let fmt = &fmts[*fi];
+            let mut f = gen::file(4, 2, fmt, &[10, 20]);
+            if *fi == 2 {
+                f.frames[0].push(new_palette(0, pal_entries(10, 5)));
+            }
+            f.frames[0].push(Body::Tileset(tileset(1, 3, 2, 1, tile_pixels(fmt, 3, 2, 1, 4, (1, 9)), "ts")));
+            let mut l0 = Layer::tilemap("m0", 1);
+            l0.opacity = ops[*a].0;
+            f.frames[0].push(Body::Layer(l0));
+            if *two_layers {
+                let mut l1 = Layer::tilemap("m1", 1);
+                l1.opacity = ops[*b].0;
+                f.frames[0].push(Body::Layer(l1));
+                f.frames[0].push(tm_cel(0, 0, 0, ops[*a].1, 2, 2, vec![1, 2, 2, 1]));
+                f.frames[0].push(tm_cel(1, 0, 0, ops[*b].1, 2, 1, vec![2, 1]));
+            } else {
+                f.frames[0].push(tm_cel(0, 0, 0, ops[*a].1, 2, 2, vec![1, 2, 2, 1]));
+                f.frames[1].push(tm_cel(0, 2, 0, ops[*b].1, 1, 2, vec![2, 1]));
+            }
+            conform(ctx, "shared-tileset", &case, &f, &want);
+        });
+    }
+
     // many tiles: ids beyond 255
     if ctx.wants_family("many-tiles") {
         let cases: Vec<(usize, u32)> = (0..3usize).flat_map(|fi| [256u32, 300, 1000].into_iter().map(move |n| (fi, n))).collect();
